@@ -276,6 +276,13 @@ def run(chk):
                           "stdin: %r\nfile: %r" % (a, b)))
     import shutil
     shutil.rmtree(tmpd, ignore_errors=True)
+    # reach of `xe_output_reparses` (Thm/C17 with C04 `print_newline_roundtrip`): on how many of the documents xe wrote in this run do
+    # the hypotheses hold (the rewritten document is in the printer's profile, its canonical rendering meets the lexical side
+    # conditions, depth within the limit)?  Measured on the output text by the model (op thm04); carries no theorem.
+    xouts = sorted({(o[:-1] if o.endswith("\n") else o) for _, o in outs})
+    th = lib.run_lines(lib.model_driver(), [lib.req("thm04", o) for o in xouts], timeout=600, per_line_resume=True)
+    chk.cov["theorem_reach"] = {"documents_written_by_xe": len(xouts), "in_profile": sum(1 for r in th if r.startswith("profile=1")),
+                                "hypotheses_hold": sum(1 for r in th if r == "profile=1 ok=1 faithful=1 depth=1 canon=1")}
     chk.cov["command_lines"] = "%d unusable argument vectors per run (missing values, repeated options, bad --setns, two files, missing file, a directory)" % nbad
     chk.cov["outcomes"] = dict(sorted(hist.items()))
     chk.cov["rule"] = ("%d runs of the real xq / xe example binaries (built from the working tree; --no-indent, --setns bindings) on "
